@@ -148,6 +148,9 @@ class Parser:
         if define:
             toks = self.parser_work(define)
             main = utils.filter_set_toks(toks, 0, defs.LanguageToken)
+            # NB: text flows from the definitions (\footnote, ...) carry
+            # positions of the definition text, they are dropped as well
+            self.extracted = []
         main += self.parser_work(latex)
 
         if extract:
